@@ -37,6 +37,7 @@ func checkC12(r *Report, p *Program) {
 	claimToleranceConverse(r, p, "R12.18")
 	resultNotUsedBeforeErrorCheck(r, p, "R12.19")
 	errorValuesUsed(r, p, "R12.20")
+	smallVerbClauses(r, p, "R12.21")
 	r17_1(r, p) // a retry decides from the informer's object again: a sync that edited it has already "done" there what the failed write did not do
 	retriesReallyRetry(r, p, "R12.16", 1)
 }
